@@ -154,6 +154,9 @@ Definition citem := (Z * diff * cbody)%type.
 
 Section Sem.
   Variable negcmp : binop -> option binop.    (* BinOpKind::negate_comparison, from Gen/StructTable.v *)
+  (* can the compiler lower `unless (--a op b) goto`?  truth cannot (cntneg = false is the faithful
+     model); the idealised setting cntneg = true is used to state what the passes do preserve *)
+  Variable cntneg : bool.
 
   Definition neg_cond (c : cond) : option cond :=
     match c with
@@ -165,7 +168,9 @@ Section Sem.
   (* `unless (a op b)` is compiled as `if (a negop b)` (lower/stackless.rs) *)
   Definition k_unless (c : cond) : cjk :=
     match c with
-    | CCnt _ _ _ => KUnless c           (* not recognised as a count jump: does not compile *)
+    | CCnt _ _ _ =>
+        if cntneg then match neg_cond c with Some c' => KIf c' | None => KUnless c end
+        else KUnless c                  (* not recognised as a count jump: does not compile *)
     | _ => match neg_cond c with Some c' => KIf c' | None => KUnless c end
     end.
 
